@@ -195,7 +195,7 @@ def chk_case(inp, c):
               n_differ=int(np.sum(g1[dec] != g2[dec])))
         c.note("membership", {"orig": g1, "twin": g2})
     elif op == "range":
-        b = B[0]
+        b = B[:3]           # the three constructed interior captures, as one batch
         rkw, rtol = {}, 1e-6
         if inp.get("sparse_idx") is not None and finite:
             c.cell("range:sparse-target")
